@@ -1,6 +1,7 @@
 // Harness `disp`: EventDispatcher over a table of key types x prototypes x ArgumentPassing x Map (C04),
 // listener scripts acting on this and other events' lists (dispatcher half of C02), ledger (C08).
 #include <eventpp/eventdispatcher.h>
+#include <eventpp/utilities/eventutil.h>
 
 #include "common/harness.h"
 #include "common/ledger.h"
@@ -16,10 +17,10 @@
 namespace {
 using namespace vf;
 
-enum Kind { D_APPEND = 1, D_PREPEND, D_INSERT, D_REMOVE, D_OWNS, D_HASANY, D_FOREACH, D_FOREACHIF, D_DISPATCH, D_MAX };
+enum Kind { D_APPEND = 1, D_PREPEND, D_INSERT, D_REMOVE, D_OWNS, D_HASANY, D_FOREACH, D_FOREACHIF, D_DISPATCH, D_UTIL_HAS, D_UTIL_REMOVE, D_UTIL_HASANY, D_MAX };
 const char * kindName(int k)
 {
-	static const char * names[] = { "?", "appendListener", "prependListener", "insertListener", "removeListener", "ownsHandle", "hasAnyListener", "forEach", "forEachIf", "dispatch" };
+	static const char * names[] = { "?", "appendListener", "prependListener", "insertListener", "removeListener", "ownsHandle", "hasAnyListener", "forEach", "forEachIf", "dispatch", "util.hasListener", "util.removeListener", "util.hasAnyListener" };
 	return (k > 0 && k < D_MAX) ? names[k] : "?";
 }
 
@@ -129,6 +130,23 @@ struct LRef : LedgeredT<2>
 	}
 };
 
+// a user Callback type that can be compared (the helpers of utilities/eventutil.h need that): two callbacks are equal when
+// their class (id % 3) is equal, so one event can hold several equal callbacks
+struct CmpCb : LedgeredT<2>
+{
+	explicit CmpCb(int cb) : LedgeredT<2>(kCbBase + cb) {}
+	mutable int ownCalls = 0;
+	int cls() const { return (id - kCbBase) % 3; }
+	template <typename ...A> void operator() (const A & ...a) const {
+		touch();
+		Summary s;
+		descAll(s, a...);
+		g_ownCalls = ++ownCalls;
+		deliver(id - kCbBase, s);
+	}
+	friend bool operator == (const CmpCb & a, const CmpCb & b) { return a.cls() == b.cls(); }
+};
+
 // ---- implementation back end
 
 struct IDisp
@@ -144,6 +162,14 @@ struct IDisp
 	virtual bool forEachIf(int key, int stop, std::vector<int> & handles) = 0;
 	// performs the dispatch; fills `expect` with what every listener must receive; returns false if a caller lvalue changed
 	virtual bool dispatch(int key, int serial, int value, int how, Summary & expect) = 0;
+	// which event's listeners a dispatch called with `key` reaches (a getEvent policy may compute another event)
+	virtual int routeOf(int key) const { return key; }
+	// the free helpers hasListener / removeListener / hasAnyListener(dispatcher, event[, callback]) of eventutil.h; only for
+	// the configuration whose Callback type is comparable. `cls` names a callback class (see CmpCb)
+	virtual bool hasUtil() const { return false; }
+	virtual bool utilHas(int, int) { return false; }
+	virtual bool utilRemove(int, int) { return false; }
+	virtual bool utilHasAny(int) { return false; }
 	virtual size_t handleCount() const = 0;
 };
 
@@ -170,6 +196,17 @@ template <typename K> struct PolIncludeGetEventByValue
 	using ArgumentPassingMode = eventpp::ArgumentPassingIncludeEvent;
 	static K getEvent(K k, Tracked t) { (void)t; return k; }
 };
+// a getEvent policy for the exclude-event form whose result is NOT its first argument: dispatch(k, ...) goes to the
+// listeners of the next key of the pool. The policy must be found although it takes the event in front of the prototype's arguments.
+struct PolExcludeShift
+{
+	using ArgumentPassingMode = eventpp::ArgumentPassingExcludeEvent;
+	static int getEvent(const int & k, const Tracked &, int) {
+		for(int i = 0; i < kKeys; ++i) if(KeyPool<int>::make(i) == k) return KeyPool<int>::make((i + 1) % kKeys);
+		return k;
+	}
+};
+struct PolCmpCallback { using Callback = CmpCb; using ArgumentPassingMode = eventpp::ArgumentPassingIncludeEvent; };
 struct PolChecked { using Threading = CheckedThreading; };
 struct PolSpin { using Threading = eventpp::GeneralThreading<eventpp::SpinLock>; };
 
@@ -183,9 +220,28 @@ struct DispBase : IDisp
 	Handle H(int h) const { return h >= 0 && (size_t)h < handles.size() ? handles[h] : Handle(); }
 	static K key(int i) { return KeyPool<K>::make(i); }
 
-	void append(int k, int cb, int style) override { handles.push_back(style & 1 ? d.appendListener(key(k), LVal(cb)) : d.appendListener(key(k), LRef(cb))); }
-	void prepend(int k, int cb, int style) override { handles.push_back(style & 1 ? d.prependListener(key(k), LVal(cb)) : d.prependListener(key(k), LRef(cb))); }
-	void insert(int k, int cb, int style, int h) override { handles.push_back(style & 1 ? d.insertListener(key(k), LVal(cb), H(h)) : d.insertListener(key(k), LRef(cb), H(h))); }
+	typedef std::is_same<typename Disp::Callback, CmpCb> IsCmp;
+	void doAdd(int how, int k, int cb, int style, int h, std::false_type) {
+		if(how == 0) handles.push_back(style & 1 ? d.appendListener(key(k), LVal(cb)) : d.appendListener(key(k), LRef(cb)));
+		else if(how == 1) handles.push_back(style & 1 ? d.prependListener(key(k), LVal(cb)) : d.prependListener(key(k), LRef(cb)));
+		else handles.push_back(style & 1 ? d.insertListener(key(k), LVal(cb), H(h)) : d.insertListener(key(k), LRef(cb), H(h)));
+	}
+	void doAdd(int how, int k, int cb, int, int h, std::true_type) {
+		if(how == 0) handles.push_back(d.appendListener(key(k), CmpCb(cb)));
+		else if(how == 1) handles.push_back(d.prependListener(key(k), CmpCb(cb)));
+		else handles.push_back(d.insertListener(key(k), CmpCb(cb), H(h)));
+	}
+	void append(int k, int cb, int style) override { doAdd(0, k, cb, style, -1, IsCmp()); }
+	void prepend(int k, int cb, int style) override { doAdd(1, k, cb, style, -1, IsCmp()); }
+	void insert(int k, int cb, int style, int h) override { doAdd(2, k, cb, style, h, IsCmp()); }
+	bool hasUtil() const override { return IsCmp::value; }
+	bool doUtil(int what, int k, int cls, std::true_type) {
+		return what == 0 ? eventpp::hasListener(d, key(k), CmpCb(cls)) : what == 1 ? eventpp::removeListener(d, key(k), CmpCb(cls)) : eventpp::hasAnyListener(d, key(k));
+	}
+	bool doUtil(int, int, int, std::false_type) { return false; }
+	bool utilHas(int k, int cls) override { return doUtil(0, k, cls, IsCmp()); }
+	bool utilRemove(int k, int cls) override { return doUtil(1, k, cls, IsCmp()); }
+	bool utilHasAny(int k) override { return doUtil(2, k, 0, IsCmp()); }
 	bool remove(int k, int h) override { return d.removeListener(key(k), H(h)); }
 	bool owns(int k, int h) override { return d.ownsHandle(key(k), H(h)); }
 	bool hasAny(int k) override { return d.hasAnyListener(key(k)); }
@@ -288,7 +344,12 @@ struct CfgD : DispBase<CfgD<Policies>, int, void (const Ev &), Policies>
 	}
 };
 
-const int kConfigs = 12;
+struct CfgCShift : CfgC<int, PolExcludeShift>
+{
+	int routeOf(int key) const override { return (key + 1) % kKeys; }
+};
+
+const int kConfigs = 14;
 IDisp * makeImpl(int cfg)
 {
 	switch(cfg) {
@@ -303,6 +364,8 @@ IDisp * makeImpl(int cfg)
 	case 8: return new CfgA<KeyHash, PolInclude>();
 	case 9: return new CfgC<std::string, PolExcludeGetEventByValue<std::string> >();
 	case 10: return new CfgA<std::string, PolIncludeGetEventByValue<std::string> >();
+	case 11: return new CfgCShift();
+	case 12: return new CfgB<int, PolCmpCallback>();
 	default: return new CfgB<int, PolSpin>();
 	}
 }
@@ -425,6 +488,30 @@ struct Interp
 			if(r != ! lists[key].empty()) fail("disp.hasAny.result", dom(), "hasAnyListener(k" + std::to_string(key) + ") returned " + std::to_string(r) + ", model holds " + std::to_string(lists[key].nodes.size()));
 			break;
 		}
+		case D_UTIL_HAS: case D_UTIL_REMOVE: case D_UTIL_HASANY: {
+			if(! impl->hasUtil()) break;
+			const int key = keyOf(op.a), cls = ((op.b % 3) + 3) % 3;
+			// the first callback of that class in list order
+			int first = -1;
+			for(int n : lists[key].nodes) if(nodeCb[n] % 3 == cls) { first = n; break; }
+			if(op.kind == D_UTIL_HASANY) {
+				bool r = impl->utilHasAny(key);
+				if(r != ! lists[key].empty()) fail("disp.util.hasAny", dom(), "hasAnyListener(dispatcher, k" + std::to_string(key) + ") returned " + std::to_string(r));
+			}
+			else if(op.kind == D_UTIL_HAS) {
+				bool r = impl->utilHas(key, cls);
+				if(r != (first >= 0)) fail("disp.util.has", dom(), "hasListener(dispatcher, k" + std::to_string(key) + ", class " + std::to_string(cls) + ") returned " + std::to_string(r) + ", model says " + std::to_string(first >= 0));
+			}
+			else {
+				// removes the first equal callback of that event and only that one
+				if(first >= 0) { lists[key].remove(first); if(! frames.empty()) mutatedDuring = true; }
+				bool r = impl->utilRemove(key, cls);
+				log << "(k" << key << " class" << cls << ")=" << r;
+				if(r != (first >= 0)) fail("disp.util.remove", dom(), "removeListener(dispatcher, k" + std::to_string(key) + ", class " + std::to_string(cls) + ") returned " + std::to_string(r) + ", model says " + std::to_string(first >= 0));
+				utilRemoved = true;
+			}
+			break;
+		}
 		case D_FOREACH: {
 			enumerate(keyOf(op.a), "forEach");
 			break;
@@ -443,7 +530,8 @@ struct Interp
 		}
 		case D_DISPATCH: {
 			if((int)frames.size() >= kMaxDepth || fuel <= 0) { log << "(skip)"; break; }
-			int key = keyOf(op.a);
+			const int called = keyOf(op.a);
+			const int key = impl->routeOf(called); // the event whose listeners must run
 			DFrame f;
 			f.key = key;
 			f.inv.begin(lists[key]);
@@ -457,7 +545,7 @@ struct Interp
 			int value = ((op.b < 0 ? -op.b : op.b) % 100000);
 			log << "(k" << key << "){";
 			Summary expect;
-			bool callerIntact = impl->dispatch(key, serial, value, op.c, expect);
+			bool callerIntact = impl->dispatch(called, serial, value, op.c, expect);
 			log << "}";
 			if(failed) { frames.pop_back(); break; }
 			DFrame & fr = frames.back();
@@ -474,6 +562,7 @@ struct Interp
 	}
 
 	std::vector<int> callsOf; // per listener id: calls so far
+	bool utilRemoved = false;
 	void onCall(int cb, const Summary & s) {
 		if(failed) return;
 		if(frames.empty()) { fail("disp.call.spurious", dom(), "listener cb" + std::to_string(cb) + " called outside any dispatch"); return; }
@@ -534,7 +623,7 @@ struct Interp
 		for(size_t cb = 0; cb < count.size(); ++cb) {
 			int live = ledger().live(kCbBase + (int)cb);
 			if(count[cb] == 0 && live != 0) { fail("ledger.cb.notreleased", "C08", "listener cb" + std::to_string(cb) + " was removed and no dispatch is running, but " + std::to_string(live) + " instance(s) are alive"); return; }
-			if(live < count[cb]) { fail("ledger.cb.missing", "C08", "listener cb" + std::to_string(cb) + " is registered but not alive"); return; }
+			if(live < count[cb]) { fail("ledger.cb.missing", "C08," + dom(), "listener cb" + std::to_string(cb) + " is registered according to the model but no instance of it is alive: the dispatcher no longer holds it"); return; }
 		}
 	}
 
@@ -607,6 +696,9 @@ Grammar makeGrammar(const std::string & prop)
 		{ D_REMOVE, "removeListener", 8, H, ArgSpec(0, 3, 0, 0, 70), key, -1, 0 },
 		{ D_OWNS, "ownsHandle", 3, H, ArgSpec(0, 1), key, -1, 0 },
 		{ D_HASANY, "hasAnyListener", 2, key, ArgSpec(0, 0), ArgSpec(0, 0), -1, 0 },
+		{ D_UTIL_HAS, "util.hasListener", 2, key, ArgSpec(0, 2), ArgSpec(0, 0), -1, 0 },
+		{ D_UTIL_REMOVE, "util.removeListener", 3, key, ArgSpec(0, 2), ArgSpec(0, 0), -1, 0 },
+		{ D_UTIL_HASANY, "util.hasAnyListener", 1, key, ArgSpec(0, 0), ArgSpec(0, 0), -1, 0 },
 		{ D_FOREACH, "forEach", 3, key, ArgSpec(0, 0), ArgSpec(0, 0), -1, 0 },
 		{ D_FOREACHIF, "forEachIf", 2, key, ArgSpec(0, 4), ArgSpec(0, 0), -1, 0 },
 		{ D_DISPATCH, "dispatch", 22, key, ArgSpec(0, 99999), ArgSpec(0, 3), -1, 0 },
